@@ -62,6 +62,7 @@ package graphalg
 //@   model int
 //@   ensures [same-slice] region(result) == region(xs) && offset(result) == offset(xs) && len(result) == len(xs)
 //@   ensures [reversed]   forall k in 0..len(xs) :: xs[k] == old(xs[len(xs)-1-k])
+//@   ensures [reversed-from] forall k in 0..len(xs) :: old(xs[k]) == xs[len(xs)-1-k]
 //@   loop 1 (i) invariant 0 <= i && j == len(xs) - 1 - i && i <= j + 1 && (forall k in 0..i :: xs[k] == old(xs[len(xs)-1-k]) && xs[len(xs)-1-k] == old(xs[k])) && (forall k in i..j+1 :: xs[k] == old(xs[k]))
 //@   assigns xs[*]
 
@@ -108,21 +109,27 @@ package graphalg
 //@   assigns nothing
 
 // IDom is verified against: shape of the result; memory safety of the whole
-// iteration (chainOK is an inductive invariant GIVEN one assumed fact, marked
-// below: when a node of the post-order is processed, the candidate computed
-// from its processed predecessors exists and has a larger post-order number -
-// true because the node's DFS-tree parent precedes it in reverse post-order;
-// not proved); and that the loop ends at a fixpoint of the CHK equations
-// (assert fixpoint). That the fixpoint is the dominator tree (idomChains and
-// the rest of C19's statement) is NOT proved: idomChains is exported as an
-// assumed postcondition.
-//@ spec biReq(g graph.BiGraph) bool = wfBi(g) && wfG(g) && (forall x int :: !fresh(g.Out(x)) && !fresh(g.In(x)))
+// iteration: chainOK is an inductive invariant, because when a node of the
+// post-order is processed the candidate computed from its processed
+// predecessors exists and has a larger post-order number - the node's parent in
+// the depth-first tree precedes it in reverse post-order (PostOrder's
+// postcondition `parent`), is one of its listed predecessors (inOutOK) and was
+// processed earlier in the same pass; and that the loop ends at a fixpoint of
+// the CHK equations (assert fixpoint). That the fixpoint is the dominator tree
+// (idomChains and the rest of C19's statement) is NOT proved: idomChains is
+// exported as an assumed postcondition.
+// In lists every predecessor: p -> Out(p)[e] implies p is in In(Out(p)[e])
+//@ spec inOutOK(g graph.BiGraph) bool = forall p in 0..g.NumNodes(), e in 0..len(g.Out(p)) :: (exists f in 0..len(g.In(g.Out(p)[e])) :: g.In(g.Out(p)[e])[f] == p)
+//@ spec biReq(g graph.BiGraph) bool = wfBi(g) && wfG(g) && inOutOK(g) && (forall x int :: !fresh(g.Out(x)) && !fresh(g.In(x)))
+// every node of the reverse post-order but the first has a predecessor earlier in it
+//@ spec rpoParent(g graph.BiGraph, rpo []int) bool = forall q in 1..len(rpo) :: (exists r in 0..q, e in 0..len(g.Out(rpo[r])) :: g.Out(rpo[r])[e] == rpo[q])
 //@ spec idomInv(g graph.BiGraph, root int, idom []int, poNum []int, rpo []int) bool =
 //@     len(idom) == g.NumNodes() && chainOK(idom, poNum) && idom[root] == root && allin(rpo, g.NumNodes()) &&
 //@     (forall x in 0..len(idom) :: -1 <= idom[x] && idom[x] < len(idom))
 //@ spec fixAt(g graph.BiGraph, root int, idom []int, poNum []int, b int) bool =
 //@     b != root ==> idom[b] == foldI(idom, poNum, g.In(b), len(g.In(b)))
 
+//@ spec rpoFacts(g graph.BiGraph, root int, rpo []int, poNum []int) bool = len(rpo) >= 1 && rpo[0] == root && nodup(rpo) && (forall q in 0..len(rpo) :: poNum[rpo[q]] == len(rpo) - 1 - q)
 //@ func IDom
 //@   model int
 //@   requires biReq(g) && 0 <= root && root < g.NumNodes()
@@ -130,20 +137,23 @@ package graphalg
 //@   ensures [assumed dominator-chains] idomChains(g, root, result)
 //@   loop 1 (i) modifies poNum[*]
 //@   loop 1 (i) preserves po[*]
-//@   loop 1 (i) invariant len(poNum) == g.NumNodes() && allin(po, g.NumNodes()) && nodup(po) && len(po) >= 1 && po[len(po)-1] == root && (forall j in 0..i :: poNum[po[j]] == j)
+//@   loop 1 (i) invariant (forall k in 0..len(po)-1 :: (exists j in k+1..len(po), e int, x int :: x == po[j] && 0 <= e && e < len(g.Out(x)) && old(g.Out(x)[e]) == po[k])) && len(poNum) == g.NumNodes() && allin(po, g.NumNodes()) && nodup(po) && len(po) >= 1 && po[len(po)-1] == root && (forall j in 0..i :: poNum[po[j]] == j)
 //@   loop 2 (i) modifies idom[*]
 //@   loop 2 (i) preserves poNum[*], rpo[*]
-//@   loop 2 (i) invariant len(idom) == g.NumNodes() && (forall x in 0..i :: idom[x] == -1)
+//@   loop 2 (i) invariant rpoFacts(g, root, rpo, poNum) && len(idom) == g.NumNodes() && (forall x in 0..i :: idom[x] == -1)
 //@   loop 3 modifies idom[*]
 //@   loop 3 preserves poNum[*], rpo[*]
-//@   loop 3 invariant idomInv(g, root, idom, poNum, rpo) && (!changed ==> (forall j in 0..len(rpo) :: fixAt(g, root, idom, poNum, rpo[j])))
+//@   loop 3 invariant rpoFacts(g, root, rpo, poNum) && idomInv(g, root, idom, poNum, rpo) && (!changed ==> (forall j in 0..len(rpo) :: fixAt(g, root, idom, poNum, rpo[j])))
+//@   loop 4 (b) forget
 //@   loop 4 (b) modifies idom[*]
 //@   loop 4 (b) preserves poNum[*], rpo[*]
-//@   loop 4 (b) invariant idomInv(g, root, idom, poNum, rpo) && (!changed ==> (forall j in 0.._k :: fixAt(g, root, idom, poNum, rpo[j])))
+//@   loop 4 (b) invariant rpoFacts(g, root, rpo, poNum) && (forall q in 0.._k :: idom[rpo[q]] != -1) && idomInv(g, root, idom, poNum, rpo) && (!changed ==> (forall j in 0.._k :: fixAt(g, root, idom, poNum, rpo[j])))
 //@   loop 5 (p) modifies nothing
 //@   loop 5 (p) preserves poNum[*], rpo[*], idom[*]
-//@   loop 5 (p) invariant newIdom == foldI(idom, poNum, g.In(b), _k) && (newIdom == -1 || (0 <= newIdom && newIdom < len(idom) && idom[newIdom] != -1))
-//@   assert @loop5:exit [assumed dfs-parent-processed] newIdom != -1 && poNum[newIdom] > poNum[b]
+//@   loop 5 (p) invariant (forall e in 0.._k :: idom[g.In(b)[e]] != -1 ==> newIdom != -1 && poNum[newIdom] >= poNum[g.In(b)[e]]) && newIdom == foldI(idom, poNum, g.In(b), _k) && (newIdom == -1 || (0 <= newIdom && newIdom < len(idom) && idom[newIdom] != -1))
+//@   assert @loop2:exit [rpo-parent] forall q in 1..len(rpo) :: (exists r in 0..q, e int, x int :: x == rpo[r] && 0 <= e && e < len(g.Out(x)) && old(g.Out(x)[e]) == rpo[q])
+//@   assert @loop5:exit [parent-listed] exists r in 0.._k4, f in 0..len(g.In(b)) :: g.In(b)[f] == rpo[r]
+//@   assert @loop5:exit [dfs-parent-processed] newIdom != -1 && poNum[newIdom] > poNum[b]
 //@   assert @loop3:exit [fixpoint] forall j in 0..len(rpo) :: fixAt(g, root, idom, poNum, rpo[j])
 //@   assigns nothing
 
@@ -164,6 +174,7 @@ package graphalg
 //@     forall y in 0..b, x in 0..len(df) :: inDF(g, root, idom, x, y) ==> has(df[x], y)
 
 //@ func DomFrontier
+//@   abstract inOutOK
 //@   model int
 //@   requires biReq(g) && 0 <= root && root < g.NumNodes() && (isnil(idom) || isIDom(g, root, idom))
 //@   ensures [len]     len(result) == g.NumNodes()
@@ -222,6 +233,10 @@ package graphalg
 //@   ensures [range]      allin(result, g.NumNodes()) && fresh(result)
 //@   assigns nothing
 
+// every node of the post-order but the last has a predecessor later in the list
+// (its parent in the depth-first tree)
+//@ spec hasLaterParent(g graph.Graph, out []int, k int) bool = exists j in k+1..len(out), e in 0..len(g.Out(out[j])) :: g.Out(out[j])[e] == out[k]
+
 //@ func PostOrder#lit1
 //@   model bv
 //@   abstract member
@@ -235,9 +250,10 @@ package graphalg
 //@   ensures [new]      forall k in old(len(out))..len(out), j int :: j == out[k] ==> !old(member(*visited, j))
 //@   ensures [regions]  (region(out) == old(region(out)) || fresh(out)) && (region(visited.marks) == old(region(visited.marks)) || fresh(visited.marks))
 //@   ensures [graph]    wfG(g)
+//@   ensures [parent]   forall k in old(len(out))..len(out)-1 :: hasLaterParent(g, out, k)
 //@   ensures [range]    allin(out, g.NumNodes())
 //@   loop 1 (succ) modifies *visited, visited.marks[*], old(visited.marks)[*], out[*], old(out)[*]
-//@   loop 1 (succ) invariant wfG(g) && allin(out, g.NumNodes()) && visited != nil && len(out) >= old(len(out)) && (forall k in 0..old(len(out)) :: out[k] == old(out[k])) && allmarked(*visited, out) && member(*visited, n) && nodup(out) && (forall j int :: old(member(*visited, j)) ==> member(*visited, j)) && (forall k in old(len(out))..len(out) :: out[k] != n) && (forall k in old(len(out))..len(out), j int :: j == out[k] ==> !old(member(*visited, j))) && (region(out) == old(region(out)) || fresh(out)) && (region(visited.marks) == old(region(visited.marks)) || fresh(visited.marks))
+//@   loop 1 (succ) invariant (forall k in old(len(out))..len(out) :: hasLaterParent(g, out, k) || (exists e in 0.._k :: g.Out(n)[e] == out[k])) && wfG(g) && allin(out, g.NumNodes()) && visited != nil && len(out) >= old(len(out)) && (forall k in 0..old(len(out)) :: out[k] == old(out[k])) && allmarked(*visited, out) && member(*visited, n) && nodup(out) && (forall j int :: old(member(*visited, j)) ==> member(*visited, j)) && (forall k in old(len(out))..len(out) :: out[k] != n) && (forall k in old(len(out))..len(out), j int :: j == out[k] ==> !old(member(*visited, j))) && (region(out) == old(region(out)) || fresh(out)) && (region(visited.marks) == old(region(visited.marks)) || fresh(visited.marks))
 //@   assigns *visited, visited.marks[*], out[*]
 
 //@ func PostOrder
@@ -246,6 +262,7 @@ package graphalg
 //@   requires 0 <= root && root < g.NumNodes() && wfG(g) && (forall x int :: !fresh(g.Out(x)))
 //@   ensures [root-last] len(result) >= 1 && result[len(result)-1] == root
 //@   ensures [nodup]     nodup(result)
+//@   ensures [parent]    forall k in 0..len(result)-1 :: hasLaterParent(g, result, k)
 //@   ensures [range]     allin(result, g.NumNodes()) && fresh(result)
 //@   assigns nothing
 
